@@ -74,12 +74,6 @@ theorem NafInv.exit {w s pos carry : Nat} {naf : List Int} (h : NafInv w s pos c
   rw [h0] at hv
   simpa using hv
 
-/-- window decomposition: `s / 2^pos = (s / 2^pos) % 2^w + 2^w * (s / 2^(pos+w))` -/
-theorem div_split (s pos w : Nat) :
-    s / 2 ^ pos = s / 2 ^ pos % 2 ^ w + 2 ^ w * (s / 2 ^ (pos + w)) := by
-  rw [pow_add, ← Nat.div_div_eq_div_mul, Nat.add_comm]
-  exact (Nat.div_add_mod _ _).symm
-
 theorem getD_set_ne_zero {naf : List Int} {pos i : Nat} {d : Int} (hpos : pos < naf.length)
     (h : (naf.set pos d).getD i 0 ≠ 0) : i = pos ∨ (i ≠ pos ∧ naf.getD i 0 ≠ 0) := by
   rw [getD_set naf pos i d hpos] at h
